@@ -14,9 +14,9 @@ func main() {
 		Assumptions: []string{"refrv reference interpreter", "CSR register keys follow the product's csr<N> spelling", "code image built through the verif hook elf.VerifNewMemory"},
 		Cases: func(t string) int {
 			if t == "thorough" {
-				return 80000
+				return 400000
 			}
-			return 12000
+			return 30000
 		},
 		Floor: func(t string) int {
 			if t == "thorough" {
